@@ -9,7 +9,7 @@
 (* Quick tier: the first matrix of the pair / vec laws is thinned to the       *)
 (* matrices whose weighted entry sum is divisible by 27 (all are kept for the   *)
 (* one-matrix laws); thorough tier: nothing is thinned.                        *)
-EXTENDS LinAlgebra, IOUtils
+EXTENDS LinGeneral, IOUtils
 
 Tier == IF "C06_TIER" \in DOMAIN IOEnv THEN IOEnv.C06_TIER ELSE "quick"
 
@@ -56,6 +56,7 @@ ASSUME LawYPR
 ASSUME LawBranches
 ASSUME LawHurwitz
 ASSUME LawPredicates
+ASSUME LawGeneralPredicates
 ASSUME \A a \in IntQuats(-2..2) : LawIntQuat(a, <<1, -2, 0, 1>>) /\ LawIntQuat(a, <<0, 1, 1, -1>>)
 ASSUME \A a \in IntQuats(-1..1), b \in IntQuats(-1..1) : LawIntQuat(a, b)
 \* every branch is reached with every one of its terms non-zero
